@@ -239,6 +239,40 @@ prop("C16", "fault_enumeration",
            required_classes=["graceful", "immediate", "one-shot", "stop-with-request-in-flight"])],
      SIM_ASSUME + ["deadlocks that need a particular interleaving of runnable sender goroutines between two requests are found only by repetition"])
 
+WIRE_ASSUME = [
+    "wire world W3: the real sts binary (built from /repo's working tree) runs as a receiver (-mode in) on loopback with a generated YAML configuration; "
+    "the harness sends real HTTP requests and snapshots (path, size, md5) a sandbox directory that contains the receiver's roots as a proper sub-directory, "
+    "together with canary files around them, before and after each request (after the tree has been stable for 15 ms)",
+    "real time: the settle heuristic (two equal snapshots 15 ms apart, at most 600 ms) could in principle miss a very late side effect",
+]
+
+prop("C14", "exploration",
+     "W3: receivers with and without a source list; 1-12 requests per server over every route (PUT /data, PUT /data-recovery, POST /validate, GET /partials, "
+     "GET|DELETE /static/...), with part name / rename / predecessor / source / separator header / URL path drawn from a traversal vocabulary ('..' chains, "
+     "absolute paths, backslashes, percent-encoding, empty segments, 300-character names, unicode, '.'/'..' and slash-containing source names); oracle: every "
+     "change of the sandbox lies under the stage / final / receive-log / serve directory of the source the request was authorised for (or the message log), no "
+     "answer contains a canary token, a 4xx answer changed nothing; non-trivial = a request carrying at least one escaping field",
+     [dict(pkg="wirex", test="TestC14Wire", world="W3", needs_sts_binary=True, quick=160, thorough=6000, shards=8, shrinktime="60s", timeout=1500,
+           required_classes=["escape-attempt"])],
+     WIRE_ASSUME + ["symlink planting inside the roots by a local user is out of scope (the property is about requests)"])
+
+prop("C15", "exploration",
+     "(a) W3: the real receiver binary configured with source lists {none, one, three incl. dotted and slash-containing names} x key lists {none, one, two}; an "
+     "authorised sender first leaves a partial file and records what it is told (partials listing, recovery answer); then 1-14 requests over all six "
+     "validated route/method pairs with source and key drawn from valid / wrong / empty / other case / containing separators or pattern characters / another "
+     "source's name, in header or query string; for every request the configuration does not allow: status 403 (400 without source), no change anywhere "
+     "in stage, final, receive-log and serve directories (sandbox snapshot), and the authorised sender is told exactly what it was told before; "
+     "(b) W1r with pause points: a staging area with complete-but-unvalidated files (first life crashed while validating) is put into Recover(), which is "
+     "held at its j-th durable step; while held, Ready() must be false, and Recover() must not return before validation of what it found is done; "
+     "non-trivial = (a) a request differing from an authorised one in source or key only, (b) recovery actually held",
+     [dict(pkg="wirex", test="TestC15Wire", world="W3", needs_sts_binary=True, quick=160, thorough=6000, shards=8, shrinktime="60s", timeout=1500,
+           required_classes=["unauthorised-request"]),
+      dict(pkg="stagex", test="TestC15Recovery", world="W1r+pause", overlay=True, quick=480, thorough=16000, per_proc=60, shrink_runs=80,
+           required_classes=["request-during-recovery"])],
+     WIRE_ASSUME + ["header values are trimmed by HTTP itself, so values differing only in surrounding blanks are not generated",
+                    "the window between 'go stager.Recover()' at process start and the goroutine clearing the ready flag is not claimed",
+                    "(b) checks the ready flag the HTTP layer consults (503 when false), not the HTTP answer itself"])
+
 # ---------------------------------------------------------------------------
 # texts for MANIFEST.json (tools/mkmanifest.py)
 
@@ -356,5 +390,18 @@ MANIFEST_TEXT["C16"] = dict(
     text="Stops of both kinds at drawn moments (including one-shot); Start must return within a simulated-time bound, confirmed files must be recorded done "
          "in the persisted cache, a failure-free graceful stop must leave nothing found by the scans undelivered.",
     note=SIM_NOTE)
+
+MANIFEST_TEXT["C14"] = dict(
+    technique="fuzzing the real receiver process over HTTP with a traversal grammar in every field of every route; sandbox snapshot-diff oracle with canary files",
+    text="Generated hostile requests against the real binary; the before/after listing of a sandbox containing the receiver's roots must show changes only "
+         "inside the authorised source's directories, and answers must not disclose canary content.",
+    note="Real binary, real loopback HTTP, real file system; about a thousand requests per quick run.")
+
+MANIFEST_TEXT["C15"] = dict(
+    technique="fuzzing the real receiver process with generated credentials on every route (snapshot-diff and answer-stability oracle); pause-point scheduling of Recover() for the readiness clause",
+    text="Generated (configuration, request) pairs against the real binary: every request the configuration does not allow must be refused with the "
+         "right status, leave all receiver directories untouched and not change what an authorised sender is told. Recovery held at drawn steps must keep "
+         "the staging area not ready.",
+    note="Real binary over loopback for the authorisation clause; instrumented in-process Stage for the recovery clause.")
 
 NOT_CLAIMED = {}
